@@ -147,32 +147,34 @@ def swizzle_masks(n, tier, rng, two_input=False):
     def add(name, t):
         t = tuple(int(x) % m for x in t)
         if t not in fam.values(): fam[name] = t
+    full = tier == 'thorough'
     add('id', range(n)); add('rev', reversed(range(n)))
-    bc = range(n) if (n <= 8 or tier == 'thorough') else [0, 1, n // 2 - 1, n // 2, n - 1]
+    bc = range(n) if (n <= 4 or full) else [0, n // 2, n - 1]
     for b in bc: add('bc%d' % b, [b] * n)
-    rt = range(1, n) if (n <= 8 or tier == 'thorough') else [1, 2, n // 4, n // 2 - 1, n // 2, n // 2 + 1, n - 1]
+    rt = range(1, n) if (n <= 4 or full) else [1, n // 2, n - 1]
     for r in rt: add('rot%d' % r, [(i + r) % n for i in range(n)])
     add('swapadj', [i ^ 1 for i in range(n)])
     add('swaphalf', [(i + n // 2) % n for i in range(n)])
     add('duplo', [i % (n // 2) for i in range(n)]); add('duphi', [n // 2 + i % (n // 2) for i in range(n)])
     add('zip', [(i // 2) + (n // 2) * (i % 2) for i in range(n)])
     add('unzip', [2 * i if i < n // 2 else 2 * (i - n // 2) + 1 for i in range(n)])
-    add('evens', [2 * (i % (n // 2)) for i in range(n)]); add('odds', [2 * (i % (n // 2)) + 1 for i in range(n)])
+    if full:
+        add('evens', [2 * (i % (n // 2)) for i in range(n)]); add('odds', [2 * (i % (n // 2)) + 1 for i in range(n)])
     if n >= 4:
         q = max(n // 4, 1)
         add('revq', [(i // q) * q + (q - 1 - i % q) for i in range(n)])             # reverse inside quarters (in-128-bit-lane for 512)
         add('xlane', [(i + q) % n if (i // q) % 2 == 0 else i for i in range(n)])    # some lanes cross, some stay
-        add('lastfirst', [n - 1] + list(range(n - 1)))
+        if full: add('lastfirst', [n - 1] + list(range(n - 1)))
         add('halfmix', [i if i % 2 == 0 else (i + n // 2) % n for i in range(n)])    # mixes indices from both halves inside each output half
     if two_input:
         add('snd', range(n, 2 * n)); add('zip_lo', [(i // 2) + n * (i % 2) for i in range(n)])
         add('zip_hi', [n // 2 + (i // 2) + n * (i % 2) for i in range(n)])
         add('blend', [i + n * (i % 2) for i in range(n)]); add('blend2', [i + n * ((i // 2) % 2) for i in range(n)])
         add('lo_x_hi_y', [i if i < n // 2 else n + i for i in range(n)]); add('lo_y_hi_x', [n + i if i < n // 2 else i for i in range(n)])
-        add('xrev_y', [n - 1 - i if i % 2 else n + i for i in range(n)])
+        if full: add('xrev_y', [n - 1 - i if i % 2 else n + i for i in range(n)])
     if n == 4 and not two_input and tier == 'thorough':
         for v in range(256): add('all%03d' % v, [(v >> (2 * i)) & 3 for i in range(4)])
-    R = 8 if tier == 'quick' else 48
+    R = 3 if tier == 'quick' else 48
     for r in range(R): add('rnd%d' % r, [rng.randrange(m) for _ in range(n)])
     return fam
 
@@ -203,15 +205,15 @@ def c05(archs, tier, seed, types=ATYPES):
                         v = 'w%db%d' % (lo, bg)
                         ks.append(mk('C05', 'compress', 'vm', 'v', 'xsimd::compress(a, b)', ty, arch, variant=v, meta={'window': (lo, lo + 16), 'bg': bg}))
                         ks.append(mk('C05', 'expand', 'vm', 'v', 'xsimd::expand(a, b)', ty, arch, variant=v, meta={'window': (lo, lo + 16), 'bg': bg}))
-            Ns = range(n) if (n <= 8 or tier == 'thorough') else sorted({0, 1, 2, 3, n // 4, n // 2 - 1, n // 2, n // 2 + 1, n - 2, n - 1})
+            Ns = range(n) if (n <= 4 or tier == 'thorough') else sorted({0, 1, n // 2 - 1, n // 2, n - 1})
             for N in Ns:
                 ks.append(mk('C05', 'rotate_left', 'v', 'v', 'xsimd::rotate_left<%d>(a)' % N, ty, arch, variant=str(N), meta={'N': N}))
                 ks.append(mk('C05', 'rotate_right', 'v', 'v', 'xsimd::rotate_right<%d>(a)' % N, ty, arch, variant=str(N), meta={'N': N}))
-            Is = range(n) if (n <= 8 or tier == 'thorough') else sorted({0, 1, n // 4, n // 2 - 1, n // 2, n - 2, n - 1})
+            Is = range(n) if (n <= 4 or tier == 'thorough') else sorted({0, n // 2 - 1, n // 2, n - 1})
             for I in Is:
                 ks.append(mk('C05', 'insert', 'vT', 'v', 'xsimd::insert(a, b, xsimd::index<%d>())' % I, ty, arch, variant=str(I), meta={'I': I}))
             if TYPES[ty][3] == 'int':
-                Bs = range(regbytes + 1) if tier == 'thorough' else sorted({0, 1, 2, 3, 4, 5, 7, 8, 9, 12, 15, 16, 17, 20, 24, 31, 32, 33, 40, 47, 48, 49, 63, 64} & set(range(regbytes + 1)))
+                Bs = range(regbytes + 1) if tier == 'thorough' else sorted({0, 1, 3, 4, 8, 12, 15, 16, 17, 24, 31, 32, 33, 48, 63, 64} & set(range(regbytes + 1)))
                 for N in Bs:
                     ks.append(mk('C05', 'slide_left', 'v', 'v', 'xsimd::slide_left<%d>(a)' % N, ty, arch, variant=str(N), meta={'N': N}))
                     ks.append(mk('C05', 'slide_right', 'v', 'v', 'xsimd::slide_right<%d>(a)' % N, ty, arch, variant=str(N), meta={'N': N}))
@@ -293,7 +295,7 @@ def c02(archs, types=FTYPES, elementwise_only=False):
 
 
 # ---------------------------------------------------------------- C06 conversions
-def c06(archs, tier='quick'):
+def c06(archs, tier='quick', elementwise_only=False):
     ks = []
     for arch in archs:
         ca = gen.cpp_arch(arch)
@@ -303,7 +305,7 @@ def c06(archs, tier='quick'):
                 wt = TYPES[t][1]; ct = TYPES[t][0]
                 if f != t and wf == wt:
                     ks.append(Kernel('C06', 'batch_cast', f, arch, [('v', f)], ('v', t), 'xsimd::batch_cast<%s>(a)' % ct, variant=t, meta={'to': t, 'from': f}))
-                if f != t:
+                if f != t and not elementwise_only:
                     ks.append(Kernel('C06', 'bitwise_cast', f, arch, [('v', f)], ('v', t), 'xsimd::bitwise_cast<%s>(a)' % ct, variant=t, meta={'to': t, 'from': f}))
                     ks.append(Kernel('C06', 'bitwise_cast_rt', f, arch, [('v', f)], ('v', f), 'xsimd::bitwise_cast<%s>(xsimd::bitwise_cast<%s>(a))' % (cf_, ct), variant=t, meta={'to': t, 'from': f}))
                     # converting loads / stores: batch<To> from From* ; To* from batch<From>
@@ -405,4 +407,153 @@ def c17(tier, diff_archs):
             if cls == 'fp':
                 body = '%s BA(a); out[0] = xsimd::pow(a, b); out[1] = xsimd::pow(BA, b).get(0);' % b
                 ks.append(Kernel('C17', 'diff_pow_int', ty, arch, [('T', ty), ('s', None), ('x', '%s* out' % ct)], ('void', None), body, meta={'sig': 'Ts', 'diff': 'pow_int'}))
+    return ks
+
+
+# ---------------------------------------------------------------- C12 / C13(math) / C14 elementary functions
+MATH_UNARY = ['exp', 'exp2', 'exp10', 'expm1', 'log', 'log2', 'log10', 'log1p', 'sin', 'cos', 'tan', 'asin', 'acos', 'atan',
+              'sinh', 'cosh', 'tanh', 'asinh', 'acosh', 'atanh', 'erf', 'erfc', 'tgamma', 'lgamma', 'cbrt', 'sqrt', 'rsqrt_', 'reciprocal_']
+MATH_UNARY = [f for f in MATH_UNARY if not f.endswith('_')]
+MATH_BINARY = ['pow', 'atan2', 'hypot', 'fmod', 'remainder', 'fdim']
+# kernel variants: the generic math kernels are architecture-independent source; they differ by the primitives they are built on
+MATH_ARCHS = ['sse2', 'sse4_1', 'fma3_avx2', 'avx512f']
+
+
+def cmath(prop, archs=MATH_ARCHS, types=FTYPES, unary=MATH_UNARY, binary=MATH_BINARY):
+    ks = []
+    for arch in archs:
+        for ty in types:
+            for f in unary:
+                ks.append(mk(prop, f, 'v', 'v', 'xsimd::%s(a)' % f, ty, arch))
+            for f in binary:
+                ks.append(mk(prop, f, 'vv', 'v', 'xsimd::%s(a, b)' % f, ty, arch))
+            b = B(ty, arch)
+            ks.append(mk(prop, 'sincos_s', 'v', 'v', 'xsimd::sincos(a).first', ty, arch))
+            ks.append(mk(prop, 'sincos_c', 'v', 'v', 'xsimd::sincos(a).second', ty, arch))
+            ks.append(mk(prop, 'fabs', 'v', 'v', 'xsimd::fabs(a)', ty, arch)); ks.append(mk(prop, 'abs', 'v', 'v', 'xsimd::abs(a)', ty, arch))
+            ks.append(mk(prop, 'rint', 'v', 'v', 'xsimd::rint(a)', ty, arch)); ks.append(mk(prop, 'nearbyint', 'v', 'v', 'xsimd::nearbyint(a)', ty, arch))
+    return ks
+
+
+# ---------------------------------------------------------------- C16 complex batches
+C16_BIN = [('add', 'x + y'), ('sub', 'x - y'), ('mul', 'x * y'), ('div', 'x / y')]
+C16_TER = [('fma', 'xsimd::fma(x, y, z)'), ('fms', 'xsimd::fms(x, y, z)'), ('fnma', 'xsimd::fnma(x, y, z)'), ('fnms', 'xsimd::fnms(x, y, z)')]
+C16_UN = [('neg', '-x'), ('conj', 'xsimd::conj(x)'), ('proj', 'xsimd::proj(x)')]
+
+
+def c16(archs, mem_archs):
+    ks = []
+    for ty in FTYPES:
+        ct = TYPES[ty][0]
+        for arch in archs:
+            b = B(ty, arch); cb = 'xsimd::batch<std::complex<%s>,%s>' % (ct, gen.cpp_arch(arch))
+            def K_(op, nargs, expr, ret='v', comp=''):
+                args = [('v', ty)] * (2 * nargs)
+                pre = ' '.join('%s %s(%s, %s);' % (cb, 'xyz'[j], 'abcdef'[2 * j], 'abcdef'[2 * j + 1]) for j in range(nargs))
+                e = '(%s)%s' % (expr, comp) if comp else expr
+                return Kernel('C16', op, ty, arch, args, (ret, ty), e, variant=comp.strip('.()') if comp else '', meta={'nargs': nargs, 'comp': comp.strip('.()')}, pre=pre)
+            for op, expr in C16_BIN:
+                for comp in ('.real()', '.imag()'): ks.append(K_(op, 2, expr, comp=comp))
+            for op, expr in C16_TER:
+                for comp in ('.real()', '.imag()'): ks.append(K_(op, 3, expr, comp=comp))
+            for op, expr in C16_UN:
+                for comp in ('.real()', '.imag()'): ks.append(K_(op, 1, expr, comp=comp))
+            ks.append(K_('real', 1, 'xsimd::real(x)')); ks.append(K_('imag', 1, 'xsimd::imag(x)')); ks.append(K_('norm', 1, 'xsimd::norm(x)'))
+            ks.append(K_('eq', 2, 'x == y', ret='m')); ks.append(K_('ne', 2, 'x != y', ret='m'))
+            for op in ('isnan', 'isinf', 'isfinite'): ks.append(K_(op, 1, 'xsimd::%s(x)' % op, ret='m'))
+            # complex (op) real scalar-broadcast forms
+            for op, sym in (('mulr', '*'), ('divr', '/'), ('addr', '+'), ('subr', '-')):
+                for comp in ('real', 'imag'):
+                    ks.append(Kernel('C16', op, ty, arch, [('v', ty)] * 3, ('v', ty), '(x %s %s(c)).%s()' % (sym, b, comp), variant=comp, meta={'nargs': 1, 'comp': comp, 'realop': True},
+                                     pre='%s x(a, b);' % cb))
+        for arch in mem_archs:
+            b = B(ty, arch); cb = 'xsimd::batch<std::complex<%s>,%s>' % (ct, gen.cpp_arch(arch))
+            for mode in ('aligned', 'unaligned'):
+                for comp in ('real', 'imag'):
+                    ks.append(Kernel('C16', 'cload_' + mode[:2], ty, arch, [('x', 'std::complex<%s> const* a' % ct)], ('v', ty), '%s::load_%s(a).%s()' % (cb, mode, comp), variant=comp,
+                                     meta={'comp': comp, 'aligned': mode == 'aligned'}))
+                ks.append(Kernel('C16', 'cstore_' + mode[:2], ty, arch, [('x', 'std::complex<%s>* a' % ct), ('v', ty), ('v', ty)], ('void', None), '%s(b, c).store_%s(a);' % (cb, mode),
+                                 meta={'aligned': mode == 'aligned'}))
+    return ks
+
+
+# ---------------------------------------------------------------- C19 compile-time constant batches
+def c19_packs(n, w, sg, tier, rng):
+    """value packs (as Python ints in the signed/unsigned range of the type, kept small enough that + - * do not overflow a signed T)"""
+    packs = {}
+    pos = range(n) if (n <= 8 or tier == 'thorough') else sorted({0, 1, n // 2 - 1, n // 2, n - 2, n - 1})
+    for p in pos:
+        packs['onehot%d' % p] = [1 if i == p else 0 for i in range(n)]
+        packs['allbut%d' % p] = [0 if i == p else 1 for i in range(n)]
+    packs['alt'] = [i % 2 for i in range(n)]
+    packs['arange'] = list(range(n)); packs['rev'] = list(reversed(range(n)))
+    lim = min(1 << (w - 2), 1 << 14) if w > 8 else 11
+    R = 3 if tier == 'quick' else 12
+    for r in range(R):
+        packs['rnd%d' % r] = [rng.randrange(-lim if sg else 0, lim) for _ in range(n)]
+    return packs
+
+
+def c19(archs, tier, seed):
+    ks = []
+    def lit(v, ty):
+        ct, w, sg, cls = TYPES[ty]
+        if w == 64: return '%d%s' % (v, 'LL' if sg else 'ULL')
+        return '(%s)%d' % (ct, v)
+    for arch in archs:
+        ca = gen.cpp_arch(arch)
+        for ty in ATYPES:
+            ct, w, sg, cls = TYPES[ty]; n = lanes(ty, arch); ut = UT[w]
+            rng = _random.Random('c19/%s/%d/%d' % (ty, n, seed))
+            packs = c19_packs(n, w, sg and cls == 'int', tier, rng)
+            names = list(packs)
+            # boolean constants exist for every element type
+            for nm in names:
+                bits = [bool(v & 1) for v in packs[nm]]
+                bc = 'xsimd::batch_bool_constant<%s, %s, %s>' % (ct, ca, ', '.join('true' if b else 'false' for b in bits))
+                meta = {'bits': bits}
+                ks.append(Kernel('C19', 'bool_as_batch', ty, arch, [], ('m', ty), '%s().as_batch_bool()' % bc, variant=nm, meta=meta))
+                ks.append(Kernel('C19', 'bool_get', ty, arch, [('z', None)], ('bool', None), '%s().get(a)' % bc, variant=nm, meta=meta))
+                if n <= 32:
+                    ks.append(Kernel('C19', 'bool_mask', ty, arch, [], ('u64', None), '(uint64_t)(uint32_t)%s::mask()' % bc, variant=nm, meta=meta))
+                ks.append(Kernel('C19', 'bool_not', ty, arch, [], ('m', ty), '(!%s()).as_batch_bool()' % bc, variant=nm, meta=meta))
+                ks.append(Kernel('C19', 'bool_bnot', ty, arch, [], ('m', ty), '(~%s()).as_batch_bool()' % bc, variant=nm, meta=meta))
+                ks.append(Kernel('C19', 'select_const', ty, arch, [('v', ty), ('v', ty)], ('v', ty), 'xsimd::select(%s(), a, b)' % bc, variant=nm, meta=meta))
+                ks.append(Kernel('C19', 'select_rt', ty, arch, [('v', ty), ('v', ty)], ('v', ty), 'xsimd::select(%s().as_batch_bool(), a, b)' % bc, variant=nm, meta=meta))
+            for j in range(0, len(names) - 1, 2):
+                a_, b_ = names[j], names[j + 1]
+                ba = [bool(v & 1) for v in packs[a_]]; bb = [bool(v & 1) for v in packs[b_]]
+                ca_ = 'xsimd::batch_bool_constant<%s, %s, %s>' % (ct, ca, ', '.join('true' if b else 'false' for b in ba))
+                cb_ = 'xsimd::batch_bool_constant<%s, %s, %s>' % (ct, ca, ', '.join('true' if b else 'false' for b in bb))
+                for opn, sym in (('and', '&'), ('or', '|'), ('xor', '^'), ('land', '&&'), ('lor', '||')):
+                    ks.append(Kernel('C19', 'bool_' + opn, ty, arch, [], ('m', ty), '(%s() %s %s()).as_batch_bool()' % (ca_, sym, cb_), variant='%s_%s' % (a_, b_), meta={'bits': ba, 'bits2': bb}))
+            if cls != 'int': continue
+            for nm in names:
+                vals = packs[nm]
+                bc = 'xsimd::batch_constant<%s, %s, %s>' % (ct, ca, ', '.join(lit(v, ty) for v in vals))
+                meta = {'vals': vals}
+                ks.append(Kernel('C19', 'as_batch', ty, arch, [], ('v', ty), '%s().as_batch()' % bc, variant=nm, meta=meta))
+                ks.append(Kernel('C19', 'conv_batch', ty, arch, [], ('v', ty), '%s(%s())' % (B(ty, arch), bc), variant=nm, meta=meta))
+                ks.append(Kernel('C19', 'get', ty, arch, [('z', None)], ('T', ty), '%s().get(a)' % bc, variant=nm, meta=meta))
+                ks.append(Kernel('C19', 'neg', ty, arch, [], ('v', ty), '(-%s()).as_batch()' % bc, variant=nm, meta=meta))
+                ks.append(Kernel('C19', 'bnot', ty, arch, [], ('v', ty), '(~%s()).as_batch()' % bc, variant=nm, meta=meta))
+                if all(0 <= v < n for v in vals) and not sg:
+                    # an index pack: constant-mask swizzle versus run-time-index swizzle of the converted batch, on symbolic data
+                    ks.append(Kernel('C19', 'swizzle_xor', ty, arch, [('v', ty)], ('v', ty), 'xsimd::swizzle(a, %s()) ^ xsimd::swizzle(a, %s().as_batch())' % (bc, bc), variant=nm, meta=meta))
+            for j in range(0, len(names) - 1, 2):
+                a_, b_ = names[j], names[j + 1]
+                va, vb = packs[a_], packs[b_]
+                ca_ = 'xsimd::batch_constant<%s, %s, %s>' % (ct, ca, ', '.join(lit(v, ty) for v in va))
+                cb_ = 'xsimd::batch_constant<%s, %s, %s>' % (ct, ca, ', '.join(lit(v, ty) for v in vb))
+                for opn, sym in (('add', '+'), ('sub', '-'), ('mul', '*'), ('and', '&'), ('or', '|'), ('xor', '^'), ('div', '/'), ('mod', '%')):
+                    if opn in ('div', 'mod') and any(v == 0 for v in vb): continue
+                    ks.append(Kernel('C19', opn, ty, arch, [], ('v', ty), '(%s() %s %s()).as_batch()' % (ca_, sym, cb_), variant='%s_%s' % (a_, b_), meta={'vals': va, 'vals2': vb}))
+            # generators
+            gens = {'arange': ('i', lambda i, n_: i), 'rev': ('n - 1 - i', lambda i, n_: n_ - 1 - i), 'const7': ('7', lambda i, n_: 7),
+                    'quad': ('(i * i + 3 * i + 1) % 11', lambda i, n_: (i * i + 3 * i + 1) % 11), 'rot': ('(i + n - 1) % n', lambda i, n_: (i + n_ - 1) % n_)}
+            for gname, (cexpr, pyf) in gens.items():
+                pre = 'struct G { static constexpr %s get(std::size_t i, std::size_t n) { return (%s)(%s); } };' % (ct, ct, cexpr)
+                ks.append(Kernel('C19', 'make_const', ty, arch, [], ('v', ty), 'xsimd::make_batch_constant<%s, G, %s>().as_batch()' % (ct, ca), variant=gname, meta={'vals': [pyf(i, n) for i in range(n)]}, pre=pre))
+            pre = 'struct G { static constexpr bool get(std::size_t i, std::size_t n) { return (i %% 3) == 1 || i == n - 1; } };'
+            ks.append(Kernel('C19', 'make_bool_const', ty, arch, [], ('m', ty), 'xsimd::make_batch_bool_constant<%s, G, %s>().as_batch_bool()' % (ct, ca), variant='g3', meta={'bits': [(i % 3) == 1 or i == n - 1 for i in range(n)]}, pre=pre.replace('%%', '%')))
     return ks
